@@ -293,3 +293,12 @@ func init() {
 		ruleTablesKeys(c, r)
 	})
 }
+
+func init() {
+	register("C27", func(c *Ctx, r *Report) {
+		r.Decides("the embedding path serialises goyang's own entries: names are recorded under the lookup key, no module child or entry is filtered, only Description/Annotation are written, the whole root is marshalled and gzipped completely, decoding restores Parent and indexes every annotated entry; run-time code reads only entry fields that survive serialisation.",
+			"equality of the decoded tree with a goyang compilation of the source YANG (needs running goyang); faithfulness of goyang's own JSON marshalling of YangType/ListAttr.")
+		ruleSchemaEmbed(c, r)
+		ruleSchemaReadSet(c, r)
+	})
+}
